@@ -493,7 +493,6 @@ def judge_case(case, r):
               (" (matrix 1 of a (3,4,4) stack)" if hist.get("stack") else "")
         ctx = (f"[history: constructed at another pose, then {len(hist['mids']) + 1} update_pose call(s); {how} is overwritten in place "
                f"and passed to update_pose again] ")
-        fails = [ctx + f for f in fails]
         for si, (shs, ob) in enumerate(zip(sc.history_stage_shapes(sh, hist), r.get("stages") or [])):
             Ls = sc.shape_L(shs, case["margin"] or 0.0)
             where = "after construction" if si == 0 else f"after update_pose #{si} of the history"
@@ -523,6 +522,8 @@ def judge_case(case, r):
             fails += judge_point(sh, case["margin"], d, s, L, f"support_function(dirs[{i}]) with cached start vertex {start}")
     fails += judge_member(sh, r["first_vertex"], L, "first_vertex")
     fails += judge_member(sh, r["center"], L, "center")
+    if hist is not None and fails:
+        fails[0] = ctx + fails[0]
     return fails
 
 
@@ -772,6 +773,12 @@ def run(tier, seed, replay=None):
                      "sign-boundary (components in {0,+-1,+-1e-300,+-1e-9}) / powers of two incl. 2^-50, 2^-48 (straddling the "
                      "10*eps threshold of the hill climb) / parallel to a shape axis / orthogonal to or mixing shape axes / "
                      "almost parallel / almost orthogonal to a shape axis (1e-3..1e-9) / cone: around the rim-apex switch line; in half of the cases all "
+                     "ring meshes [barrels of 2-3 rings with 48..3000 segments and a fan per cap: vertex-graph diameter ~ n/4 edges instead of ~sqrt(n); "
+                     "queried along lateral directions whose maximiser lies halfway between two shortcut vertices, their opposites and repeats, each also on a new object]; "
+                     "pose histories [40-60% of the cases of the nine kinds with update_pose: constructed at another pose, then 1-4 update_pose calls that "
+                     "re-use ONE pose array overwritten in place (the constructor's own array or the array of the first update, optionally a matrix of a "
+                     "(3,4,4) stack); support points / first_vertex / center are judged after construction and after every update against the pose of that "
+                     "step, all other observations are made in the final state]; "
                      "queries of the case are passed in ONE direction array that is overwritten in place between the calls; exact hull / box / mesh cases additionally get all 26 sign directions; distinct_nontrivial counts distinct (case hash, direction index) "
                      "pairs whose direction is non-zero, whose answer passed the oracle and for which the shape has non-zero "
                      "extent along d")
@@ -781,6 +788,8 @@ def run(tier, seed, replay=None):
         "certificates speak about the shape expression of harness/narrow.py: c + sum of segments / ellipsoidal discs whose axis vectors are the binary64 products size*column (relative 1.1e-16 from the exact products), the disk frame is completed in floating point; this perturbs the set by < 1e-15*L, far below 1e-9*L",
         "membership 'within 1e-9*L of the set' in the Python oracle is tested in exact local coordinates M^-1 (p - c); for the cone the tolerance is scaled by (1 + r/h), for ellipsoid / ellipse by the gauge (tau / smallest radius); the Coq certificate uses the Euclidean distance to an explicit point of the set",
         "IEEE rounding is not modelled by the theorems; its effect is only measured here against 1e-9*L",
+        f"meshes with more than {MODEL_MAX_VERTICES} vertices (the large ring meshes, coverage.large_meshes_judged_by_exact_oracle_only) are NOT run through the Coq model, the support certificates or the cone certificate (association lists and unary indices make the model run quadratic in the vertex count): their answers are judged by the exact rational oracle alone (the maximum over ALL vertices: binary64 projections select every vertex within 1e-9*scale of the float maximum, float error < 1e-13*scale, the selected vertices are evaluated in exact rationals; membership likewise) and by the comparison of the queried object with newly constructed objects",
+        "pose histories: C03 is read as a statement about the collider in ANY state reachable through its public methods: after update_pose(P) the collider's point set is the shape at pose P (what collider2origin()/center()/aabb() describe), whichever array object carried P; observations after an in-place edit WITHOUT a following update_pose are not judged (no property text promises them, and Box keeps its cached vertices in that case)",
         "model limitation (same root as known finding C20-NORM-UNDERFLOW): numba lowers np.linalg.norm to BLAS nrm2, which does not underflow, whereas the model (like interpreted numpy) computes sqrt(sum of squares): for non-zero d with |d| < ~1e-162 the binary64 model takes the `norm == 0` arm and the compiled code the division arm; for |d| <= 1e-150 only the support VALUE is compared (both are within 1e-9*L of the maximum, the points differ); coverage.interpreted_vs_compiled_differences counts these queries (the 'underflow' feature direction of every case)",
         "mesh hill climbing: the global-maximum theorem carries the hypothesis LocalMaxGlobal on the input mesh (see Props/C03.v); for the generated meshes (up to a budget, <= 30 vertices) that hypothesis is PROVED per mesh by a cone certificate checked in Coq (coverage.mesh_cone_certificates: C03_mesh_cone_cert_sound, all directions at once); coverage.local_max_global additionally reports, per mesh and direction, the exact smallest delta for which LocalMaxGlobal / LocalMaxGlobalS hold; scipy's ConvexHull (inside make_convex_mesh) is used to build inputs",
         "coverage.impl_line_coverage: source lines of /repo executed by this run's inputs (interpreted re-execution of the numba functions' source under sys.settrace in the workers)",
@@ -985,7 +994,13 @@ def run(tier, seed, replay=None):
                 if any(x != 0.0 for x in d) and sc.dotf(s, d) != sc.dotf(ce, d):
                     distinct.add((h, di))
     R.cov["distinct_nontrivial"] = len(distinct)
-    R.cov["input_histogram"] = dict(cases_by_kind_stream=hist_kind, directions_by_class=hist_dir)
+    hh = {}
+    for c, r in zip(cases, results):
+        if c.get("history") is not None and "stages" in r:
+            key = c["shape"]["kind"] + ("/ctor_array" if c["history"]["ctor_array"] else "/update_array") + ("/stack" if c["history"].get("stack") else "")
+            hh[key] = hh.get(key, 0) + 1
+    R.cov["input_histogram"] = dict(cases_by_kind_stream=hist_kind, directions_by_class=hist_dir, pose_histories=hh)
+    R.cov["pose_history_cases"] = sum(hh.values())
     for c, r in list(zip(cases, results))[:3]:
         if "sup" in r:
             shp = {k: v for k, v in c["shape"].items() if k not in ("vs", "triangles") or len(v) <= 12}
